@@ -86,6 +86,9 @@ fn dispatch(prop: &str, tier: &str, seed: u64, rest: &[String]) -> i32 {
         "C07" => {
             let mut rep = Report::new("C07", ev_tier, seed);
             vh::c07::run(&mut rep, tier);
+            if tier == "thorough" {
+                vh::san::asan_addon(&mut rep);
+            }
             rep.finish()
         }
         "SCHED-WORKER" => vh::schedprops::worker_main(&tier.to_uppercase(), &rest[0], rest[1].parse().unwrap_or(1), rest[2].parse().unwrap_or(0), rest[3].parse().unwrap_or(1)),
@@ -121,7 +124,7 @@ fn dispatch(prop: &str, tier: &str, seed: u64, rest: &[String]) -> i32 {
                 match prop {
                     "C03" => vh::san::miri_addon(&mut rep, vh::san::jobs("hist", seed..seed + 8, &[])),
                     "C12" => vh::san::miri_addon(&mut rep, vh::san::jobs("hist", seed + 100..seed + 108, &[])),
-                    "C04" | "C05" | "C10" | "C13" | "C14" => vh::san::asan_addon(&mut rep),
+                    "C04" | "C05" | "C06" | "C10" | "C11" | "C13" | "C14" => vh::san::asan_addon(&mut rep),
                     _ => {}
                 }
             }
